@@ -23,7 +23,7 @@ func init() {
 	register("C05", &Engine{Run: c05Run, Worker: c05Worker, Replay: c05Replay})
 }
 
-var c05PoolQ = []string{"a.js", "b.ts", "zz.js", "src/c.js", "src/sub/g.js", "src/.d.js", "src/.hid/e.js", ".eslintrc.js", ".git/f.js", "lib/h.ts"}
+var c05PoolQ = []string{"a.js", "b.ts", "zz.js", "src/c.js", "src/sub/g.js", "src/.d.js", "src/.hid/e.js", ".eslintrc.js", ".git/f.js", "lib/h.ts", "A.js", "lnk.js@"}
 var c05PoolT = append(append([]string{}, c05PoolQ...), "0.js", "~.js", "lib/.keep")
 
 var c05PatQ = []string{
@@ -66,6 +66,7 @@ func c05Run(c *core.Ctx) bool {
 	// self-test of the reference matcher against doublestar.Match on every (pattern, path)
 	for _, p := range pats {
 		for _, f := range pool {
+			f = strings.TrimSuffix(f, "@")
 			m, err := doublestar.Match(p, f)
 			if err != nil || m != ref.Match(p, f) {
 				core.Fatal("reference glob matcher disagrees with doublestar.Match on (%q, %q): ref=%v doublestar=%v err=%v", p, f, ref.Match(p, f), m, err)
@@ -159,12 +160,20 @@ func c05Expand(root, text string) (map[string][]string, error) {
 
 func c05Judge(root string, cs c05case, res *core.ShardResult) (vs []core.Violation) {
 	files := map[string]string{}
+	var links []string
 	for _, f := range cs.Files {
+		if strings.HasSuffix(f, "@") {
+			links = append(links, strings.TrimSuffix(f, "@"))
+			continue
+		}
 		files[f] = "content of " + f
 	}
 	_ = os.MkdirAll(root, 0o755)
 	if err := core.WriteFiles(root, files); err != nil {
 		core.Fatal("c05: %v", err)
+	}
+	for _, l := range links {
+		_ = os.Symlink("a.js", filepath.Join(root, l)) // dangling whenever a.js is not part of the tree
 	}
 	text := c05Spokfile(cs.Patterns)
 	_ = os.WriteFile(filepath.Join(root, "spokfile"), []byte(text), 0o644)
@@ -222,7 +231,7 @@ func c05Judge(root string, cs c05case, res *core.ShardResult) (vs []core.Violati
 func regularFiles(paths []string) []string {
 	var out []string
 	for _, p := range paths {
-		if st, err := os.Lstat(p); err == nil && st.Mode().IsRegular() {
+		if st, err := os.Stat(p); err == nil && st.Mode().IsRegular() { // follows links: a link to a file is a file
 			out = append(out, p)
 		}
 	}
